@@ -75,6 +75,9 @@ Call == /\ phase = "pending"
 Next == Call \/ (phase = "done" /\ UNCHANGED vars)
 Spec == Init /\ [][Next]_vars
 
+\* (The frame property below is about directories as much as about objects: whatever a bucket does about directories
+\*  that became empty when their last object went, it does inside its root - also when the root was given as a
+\*  relative path, cf. the root shapes above.  The harness checks it on disk buckets with a single object.)
 \* ---- properties ----
 \* Containment lemma: lexical validity suffices, whatever the root is.
 Contained == \A t \in touched : Under(CleanComps(t.root), t.at)
